@@ -202,7 +202,7 @@ def admissible(rec, img, now):
     n.now = max(n.now, now)
     ov, nv = o.visible(), n.visible()
     bad = []
-    for k in set(rec) | set(ov) | set(nv):
+    for k in sorted(set(rec) | set(ov) | set(nv)):
         r = rec.get(k)
         if r != ov.get(k) and r != nv.get(k):
             bad.append("key %s: recovered %s, before the op in flight %s, after it %s" % (hexs(k), fmt(r), fmt(ov.get(k)), fmt(nv.get(k))))
@@ -243,7 +243,7 @@ def replay(ctx):
                 print("op    %s\n impl  %s" % (o[:200], a[:200]))
             still = obj.get("expected") is not None and any(len(out) <= i or out[i] != obj["expected"] for i in (5, 7, 10))
         else:
-            (c, impl, model), = ctx.lockstep("kv", hb, [{"cat": "replay", "ops": ops}], impl_env=env)
+            (c, impl, model), = K.lockstep(ctx, hb, [{"cat": "replay", "ops": ops}], impl_env=env)
             for o, a, b in zip(ops, impl, model):
                 print("op    %s\n impl  %s\n model %s" % (o[:200], a[:200], b[:200]))
             want = obj.get("observed")
@@ -353,7 +353,7 @@ def run_kv(ctx, hb, env, rng, quick, stats, where_dist):
         hist.append({"cat": "history", "ops": ops, "cfg": cfg, "keys": [hexs(k) for k in meta["keys"]]})
     for i in range(10 if quick else 120):
         hist.append(gen_orphan_template(rng.fork("orphan%d" % i)))
-    res = ctx.lockstep("kv", hb, hist, impl_env=env, timeout=1500)
+    res = K.lockstep(ctx, hb, hist, impl_env=env, timeout=1500)
     image_cases = []
     for c, impl, model in res:
         stats["histories"] += 1
@@ -448,7 +448,7 @@ def run_kv(ctx, hb, env, rng, quick, stats, where_dist):
             rd = "read - %s" % " ".join(hexs(k) for k in ic["keys"] if len(k) <= 64)
             ic["ops"] = ic["ops"] + more + ["reopen", rd, "reopen", rd, "state"]
     # ---- pass 2: every image reopened by the real store and by the model's load
-    res2 = ctx.lockstep("kv", hb, image_cases + [{"cat": "stats", "ops": ["stats"]}], impl_env=env, timeout=6000)
+    res2 = K.lockstep(ctx, hb, image_cases + [{"cat": "stats", "ops": ["stats"]}], impl_env=env, timeout=6000)
     for c, impl, model in res2:
         if c["cat"] == "stats":
             st = dict(x.split("=") for x in impl[0].split()[1:]) if impl[0].startswith("stats ") else {}
@@ -642,7 +642,7 @@ def gen_clean_skip(rng, n):
 
 def run_malformed(ctx, hb, env, rng, quick, stats):
     cases = gen_malformed(rng, 400 if quick else 8000) + gen_clean_skip(rng.fork("skip"), 150 if quick else 3000)
-    res = ctx.lockstep("kv", hb, cases, impl_env=env, timeout=3000)
+    res = K.lockstep(ctx, hb, cases, impl_env=env, timeout=3000)
     nontriv = 0
     for c, impl, model in res:
         if c["cat"] == "clean-skip":
